@@ -1,25 +1,34 @@
 //! One module per property. `run` is the worker entry; it returns the non-triviality rule text.
 use crate::engine::{Cx, Tier};
 
-pub mod c03;
+macro_rules! properties {
+    ($( $id:literal => $m:ident ),* $(,)?) => {
+        $( pub mod $m; )*
+        pub const ALL: &[&str] = &[$($id),*];
+        pub fn run(cx: &mut Cx) -> String {
+            match cx.property.as_str() {
+                $( $id => $m::run(cx), )*
+                other => panic!("unknown property {other}"),
+            }
+        }
+        pub fn assumptions(id: &str) -> Vec<String> {
+            match id {
+                $( $id => $m::ASSUMPTIONS.iter().map(|s| s.to_string()).collect(), )*
+                _ => vec![],
+            }
+        }
+    };
+}
 
-pub const ALL: &[&str] = &["C03"];
-
-pub fn run(cx: &mut Cx) -> String {
-    match cx.property.as_str() {
-        "C03" => c03::run(cx),
-        other => panic!("unknown property {other}"),
-    }
+properties! {
+    "C03" => c03,
+    "C08" => c08,
+    "C11" => c11,
+    "C15" => c15,
+    "C20" => c20,
 }
 
 /// Number of worker processes.
 pub fn workers(_id: &str, _tier: Tier) -> usize {
     std::thread::available_parallelism().map(|n| n.get()).unwrap_or(8).min(16)
-}
-
-pub fn assumptions(id: &str) -> Vec<String> {
-    match id {
-        "C03" => c03::ASSUMPTIONS.iter().map(|s| s.to_string()).collect(),
-        _ => vec![],
-    }
 }
